@@ -39,6 +39,12 @@ PyTag == PyId(inp, <<"t","a","g">>, FALSE)
 Cls   == ClassName(inp, FieldPrefix)
 Mod   == PyId(Cls, FieldPrefix, FALSE)                  \* Class.from_string: module name from the class name
 N1Single == (Mode = "single" /\ done) => (ValidIdent(Py) /\ ValidIdent(PyTag) /\ ValidIdent(Cls) /\ ValidIdent(Mod))
+\* N4: names that become path components (project / package directory, module files, tag directories) contain no
+\* separator and are never a dot segment
+ProjDir == Kebab(inp) \o <<"-","c","l","i","e","n","t">>
+NoSep(s) == \A i \in 1..Len(s) : s[i] \notin {"/", "BSL"}
+NotDots(s) == s # <<".">> /\ s # <<".", ".">> /\ s # <<>>
+N4Paths == (Mode = "single" /\ done) => \A s \in {ProjDir, Py, PyTag, Mod} : NoSep(s) /\ NotDots(s)
 EmitSingle == (Mode = "single" /\ done /\ EmitJson) =>
    PrintT(ToJson([i |-> inp, sn |-> Snake(inp), pa |-> Pascal(inp), ke |-> Kebab(inp), py |-> Py, pyr |-> PyId(inp, FieldPrefix, TRUE),
                   tag |-> PyTag, cn |-> Cls, mod |-> Mod,
